@@ -1,9 +1,12 @@
-//! C02 - shaping is total and yields well-formed glyph runs: the primitives within reach.
+//! C02 - shaping is total and yields well-formed glyph runs: NOT CLAIMED (listed under
+//! not_applicable in MANIFEST.json). This module keeps the one primitive that is within reach;
+//! `./check C02` still runs it, but it is not registered as a check of the property.
 //!
 //! `Font::shape`, `gsub::apply`, `gpos::apply` and the script engines are outside every
 //! bound (layout cache = std HashMap, Vec<RawGlyph> surgery; DESIGN.md section 4). What
-//! is decided: glyph ids are clamped to the glyph count, and position resolution
-//! validates attachment indices instead of indexing out of range.
+//! is decided: glyph ids are clamped to the glyph count. `GlyphLayout::glyph_positions` on a
+//! 2-glyph run with one symbolic attachment index ran out of 16 GB in under 3 minutes in
+//! every variant tried (one placement kind per harness, concrete anchors).
 //!
 //! @funcs gsub::replace_missing_glyphs, GlyphLayout::glyph_positions, glyph_position::glyph_advance, GlyphLayout::{adjust_cursive_connections, position_marks}, Info::init_from_glyphs
 //! @out feature / lookup application, ligature application, syllable machines, reordering, morx, map_glyphs, fonts with corrupt GSUB/GPOS, cyclic cursive chains; the matching primitives find_prev/find_next/find_nth/match_back/match_front are decided under C04 (c04_find_primitives, c04_context_*)
@@ -47,43 +50,6 @@ fn c02_replace_missing_glyphs() {
     }
     kani::cover!(ids[1] >= n && ids[0] < n, "middle glyph replaced");
     std::mem::forget(run);
-}
-
-/// Position resolution validates attachment indices: an index inside the run gives one
-/// position per glyph, an index beyond it is BadIndex - never an out-of-range access.
-// @tier thorough
-// @bound run of 2 glyphs on the 5-table test font; glyph 1 carries MarkOverprint(i) or CursiveAnchor(i, ..) or MarkAnchor(i, ..) with i any usize
-#[kani::proof]
-#[kani::unwind(8)]
-fn c02_glyph_positions_attachment_indices() {
-    use allsorts::error::ParseError;
-    use allsorts::font::Font;
-    use allsorts::glyph_position::{GlyphLayout, TextDirection};
-    use allsorts::gpos::{Info, Placement};
-    use allsorts::layout::Anchor;
-    let mut font = Font::new(provider(true, 5)).unwrap();
-    let mut infos = Info::init_from_glyphs(None, vec![raw(1, 0), raw(2, 0)]);
-    let i: usize = kani::any();
-    let which: u8 = kani::any();
-    let a = Anchor { x: kani::any(), y: kani::any() };
-    let b = Anchor { x: kani::any(), y: kani::any() };
-    infos[1].placement = match which % 3 {
-        0 => Placement::MarkOverprint(i),
-        1 => Placement::MarkAnchor(i, a, b),
-        _ => Placement::CursiveAnchor(i, false, a, b),
-    };
-    let mut layout = GlyphLayout::new(&mut font, &infos, TextDirection::LeftToRight, false);
-    match layout.glyph_positions() {
-        Ok(p) => {
-            assert!(i < 2);
-            assert!(p.len() == 2);
-            kani::cover!(which % 3 == 2, "cursive attachment resolved");
-            std::mem::forget(p);
-        }
-        Err(e) => assert!(i >= 2 && e == ParseError::BadIndex),
-    }
-    std::mem::forget(infos);
-    std::mem::forget(font);
 }
 
 /// The same clamp on a run of two (sizes are concrete per harness).
